@@ -149,6 +149,23 @@ def gen_value(ctx, t, tag, cls=None):
         return struct.unpack("<d", struct.pack("<Q", ctx.choice(1 << 64, "r64bits")))[0], "bits"
     n = ctx.choice(201 if ctx.choice(4, "long") == 0 else 41, "slen")
     salt = tag * 3 + ctx.choice(60, "salt")
+    if ctx.choice(4, "zerotail") == 0:
+        # short values whose encoding ends in zero bytes (or is nothing but zero bytes): 1..8 bytes, the sizes around
+        # the expedited/segmented boundary, where padding and payload are easiest to confuse
+        n = 1 + ctx.choice(8, "zlen")
+        k = ctx.choice(3, "zkind")
+        if t == codec.UNICODE_STRING:
+            # characters below U+0100: every second byte of the UTF-16-LE encoding is 0x00, the last one too
+            return "".join(chr(0x21 + (i * 7 + salt) % 0x5E) for i in range(max(1, n // 2))), "zero-tail"
+        if t in (codec.OCTET_STRING, codec.DOMAIN):
+            body = bytearray(world.pattern(n, salt))
+            if k == 0:
+                body[-1] = 0
+            elif k == 1:
+                body = bytearray(n)
+            else:
+                body[n // 2:] = bytes(n - n // 2)
+            return bytes(body), "zero-tail"
     cls = "len%d" % (n if n < 9 else 9 + n % 7)
     if t == codec.VISIBLE_STRING:
         s = world.pattern(n, salt, text=True).decode("ascii")
